@@ -2900,8 +2900,9 @@ structure MemoSite where
   placement : MemoPlacement
   deriving DecidableEq, Repr
 
+/-- `once`: a copy is made at the first access and the *same* object handed out ever after -/
 inductive CopyKind where
-  | alias | shallow | deep
+  | alias | shallow | deep | once
   deriving DecidableEq, Repr
 
 structure CopySite where
@@ -2974,6 +2975,20 @@ structure ReturnSite where
   func : String
   line : Nat
   kind : ReturnKind
+  deriving DecidableEq, Repr
+
+/-- does a (re-)initialisation recompute the attribute from the caller-owned objects every time? -/
+inductive DerivedGuard where
+  | always | onlyIfUnset
+  deriving DecidableEq, Repr
+
+structure DerivedStore where
+  file : String
+  func : String
+  attr : String
+  sources : List String
+  line : Nat
+  guard : DerivedGuard
   deriving DecidableEq, Repr
 
 structure ArgStore where
@@ -3412,7 +3427,82 @@ def _c20_copy_sites(src):
     rets = [n for n in ast.walk(prop[1]) if isinstance(n, ast.Return)]
     if len(rets) != 1:
         raise Untranslatable("Bath.correlations: expected one return")
-    out.append(("Bath", "correlations", rets[0].lineno, kind_of(rets[0].value, "self._correlations")))
+    rv = rets[0].value
+    ch = attr_chain(rv) if isinstance(rv, ast.Attribute) else None
+    if ch is not None and len(ch) == 2 and ch[0] == "self" and ch[1] != "_correlations":
+        # `return self.<kept>`: what is kept, and is it made anew on every access?
+        kept = ch[1]
+        assigns = [n for n in ast.walk(prop[1]) if isinstance(n, ast.Assign) and len(n.targets) == 1
+                   and ast.unparse(n.targets[0]) == "self." + kept]
+        if len(assigns) != 1:
+            raise Untranslatable("Bath.correlations: cannot read what self.%s holds" % kept)
+        inner = kind_of(assigns[0].value, "self._correlations")
+        guarded = any(isinstance(n, ast.If) and assigns[0] in list(ast.walk(n))
+                      and ("self.%s is None" % kept) in ast.unparse(n.test)
+                      for n in ast.walk(prop[1]))
+        unconditional = assigns[0] in prop[1].body
+        if inner == "alias":
+            kind = "alias"
+        elif guarded:
+            kind = "once"
+        elif unconditional:
+            kind = inner
+        else:
+            raise Untranslatable("Bath.correlations: cannot read when self.%s is renewed" % kept)
+        out.append(("Bath", "correlations", rets[0].lineno, kind))
+        return out
+    out.append(("Bath", "correlations", rets[0].lineno, kind_of(rv, "self._correlations")))
+    return out
+
+
+# ---- attributes derived from caller-owned mutable objects at (re-)initialisation -------------
+#
+# (file, Class.method, attributes of self that hold caller-owned mutable objects).  Every
+# `self.X = <expression reading one of them>` in the method must run on every call: an enclosing
+# `if` whose test looks at `self.X` (is None / hasattr / truthiness) makes it `onlyIfUnset`.
+
+C20_DERIVED_ENTRIES = [
+    ("oqupy/pt_tebd.py", "PtTebd.initialize", ["_parameters", "_system_chain"]),
+]
+
+
+def _c20_derived_stores(src):
+    out = []
+    for rel, qual, sources in C20_DERIVED_ENTRIES:
+        fn = src.function(rel, qual)
+        parents = {}
+        for n in ast.walk(fn):
+            for ch in ast.iter_child_nodes(n):
+                parents[ch] = n
+        found = False
+        for n in ast.walk(fn):
+            if not (isinstance(n, ast.Assign) and len(n.targets) == 1):
+                continue
+            t = n.targets[0]
+            ch = attr_chain(t) if isinstance(t, ast.Attribute) else None
+            if ch is None or len(ch) != 2 or ch[0] != "self":
+                continue
+            used = [s_ for s_ in sources if any(
+                isinstance(x, ast.Attribute) and attr_chain(x) and attr_chain(x)[:2] == ["self", s_]
+                for x in ast.walk(n.value))]
+            if not used:
+                continue
+            found = True
+            guard, p = "always", parents.get(n)
+            while p is not None and p is not fn:
+                if isinstance(p, (ast.If, ast.While)):
+                    if ("self." + ch[1]) in ast.unparse(p.test):
+                        guard = "onlyIfUnset"
+                    else:
+                        raise Untranslatable("%s:%s: self.%s is assigned under `%s`"
+                                             % (rel, qual, ch[1], ast.unparse(p.test)[:60]))
+                elif isinstance(p, (ast.Try, ast.For, ast.With, ast.FunctionDef, ast.Lambda)):
+                    raise Untranslatable("%s:%s: self.%s is assigned inside a %s"
+                                         % (rel, qual, ch[1], type(p).__name__))
+                p = parents.get(p)
+            out.append((rel, qual, ch[1], used, n.lineno, guard))
+        if not found:
+            raise Untranslatable("%s:%s derives nothing from %s any more" % (rel, qual, sources))
     return out
 
 
@@ -4209,6 +4299,11 @@ def frag_cachekeys(src):
         notes += ["%s:%s %s" % (r, q, w) for w in why]
     out.append("/-- what the parameterised system and the gradient functions keep from one call to "
                "the next -/\ndef argStores : List ArgStore := [\n%s\n]\n" % ",\n".join(srow))
+    drow = ["  { file := %s, func := %s, attr := %s, sources := %s, line := %d, guard := .%s }"
+            % (_lstr(r), _lstr(q), _lstr(a), _llist(map(_lstr, u)), l, g)
+            for r, q, a, u, l, g in _c20_derived_stores(src)]
+    out.append("/-- attributes a (re-)initialisation derives from caller-owned mutable objects -/\n"
+               "def derivedStores : List DerivedStore := [\n%s\n]\n" % ",\n".join(drow))
     rrow = ["  { file := %s, func := %s, line := %d, kind := .%s }" % (_lstr(r), _lstr(q), l, k)
             for r, q, l, k in _c20_return_sites(src)]
     out.append("/-- where the arrays returned by the public operator helpers come from -/\n"
